@@ -99,9 +99,13 @@ def registers(rng, mode):
     return regs
 
 
-def setup_text(mode, regs):
+def setup_text(mode, regs, braced=False):
+    # braced: every number is written as an expression (the register is then
+    # filled from the evaluation stack, not by a move of a constant)
+    def num(v):
+        return '{ ' + lit(v) + ' }' if braced else lit(v)
     return 'units {} '.format(mode) + ' '.join(
-        '{} {}'.format(k, v if isinstance(v, str) else lit(v))
+        '{} {}'.format(k, v if isinstance(v, str) else num(v))
         for k, v in regs.items())
 
 
@@ -226,7 +230,10 @@ def one_case(ctx, i, rng):
         regs['time at'] = '8:00'
         fmt, names = FMT_NO_TIME, NO_TIME
         ctx.count('cases_with_pattern_in_time_register')
-    setup = setup_text(m0, regs)
+    braced = rng.random() < 0.25
+    if braced:
+        ctx.count('cases_with_registers_set_by_expressions')
+    setup = setup_text(m0, regs, braced)
     if m0 == 'logical' and rng.random() < 0.5:
         # logical units are what a script starts in: no need to say so
         setup = setup[len('units logical '):]
